@@ -131,7 +131,13 @@ def run_real(shape):
         hs = []
         for i, e in enumerate(E):
             a = m.model.LookupVariable(f"ABS_E_{i}")
-            hs.append((m.getValue(e), a.solution_value() if a is not None else float("nan")))
+            if a is None:
+                # the wrapper may have given the helper another name (e.g. a numbered one): take the helper of row i by position
+                cands = [v for v in m.model.variables() if v.name().startswith(f"ABS_E_{i}_") and v.name()[len(f"ABS_E_{i}_"):].isdigit()]
+                a = cands[-1] if cands else None
+            if a is None:
+                raise lib.ToolTrouble(f"helper variable of row {i} not found among {[v.name() for v in m.model.variables()][:12]}")
+            hs.append((m.getValue(e), a.solution_value()))
         helpers.append(hs)
         if len(trace) >= cap:
             capped = True
